@@ -136,3 +136,18 @@ Example d_cast_decodes :
   xml_decode pf_ex nskip opts0e true (toks_of_doc d_cast) TermEOF =
   Ok (VMap [(s "a", VMap [(s "-n", VFlt (s "1000")); (s "b", VList [VFlt (s "2.5"); VBool true; VStr (s "x")])])]).
 Proof. split; reflexivity. Qed.
+
+(* ================================================================== tie to the code (regenerated on every run)
+   The decoder / encoder models above call the model functions [cast] and [escape_chars]; go2v's statement-by-statement
+   translations of func cast (xml.go) and func escapeChars (escapechars.go) from /repo's CURRENT sources are proved equal
+   to them (GenProofs/PureG.v), so the theorems of this file are re-checked against what those two functions say now. *)
+From Mxj Require Import Gen.Setters_gen Gen.PureSupport Gen.Pure_gen GenProofs.PureG.
+
+Theorem C02_cast_code_is_model : forall pf callskip st o x r t, cast_view st o ->
+  fn_cast pf callskip st x r t = Ret (cast pf (skip_of st callskip) o x r t).
+Proof. exact cast_code_is_model. Qed.
+Print Assumptions C02_cast_code_is_model.
+
+Theorem C02_escape_code_is_model : forall st x, fn_escapeChars st x = Ret (escape_chars x).
+Proof. exact escape_code_is_model. Qed.
+Print Assumptions C02_escape_code_is_model.
